@@ -16,6 +16,9 @@ def run(rep, facts):
     rep.rule("R6.2", "request::Parser::parse: StuckOnInput is stored exactly when, after the drive and the compaction, the parser is not done and input_len == input.len(); a not-done return always passes the false edge of that comparison (hence offers a non-empty input buffer)")
     rep.rule("R6.3", "aligned_bufsize = 24 if buffer_size <= 24, else (buffer_size + 7) & !7 with overflow mapped to usize::MAX: never below the configured size nor the 24-byte minimum, multiple of 8 (structure of the expression, not evaluated)")
 
+    rep.rule("R6.4", "ParamsState::drive: the payload is handed to parse_stream with rec_end = false exactly on the true edge of `data.len() < payload_rem` (these two operands, nothing else) and then unsliced; on the false edge it is data.split_at_mut(payload_rem).0 with rec_end = true (so a fragment at the end of a record never waits in the input buffer for the padding)")
+    rep.rule("R6.5", "record-end buffering: whenever rec_end is set, parse_stream / parse_buffered move every unparsed payload byte into the heap-side pair buffer and report the whole slice consumed; without rec_end they return the unparsed remainder untouched")
+
     # ---- R6.1 ---------------------------------------------------------------------------------------------
     for P in (RP, SP):
         b, g, rows = rows_of(facts, P + "::new")
@@ -142,11 +145,179 @@ def run(rep, facts):
         rep.violation("R6.3", "aligned_bufsize", "alignment rule is %s; expected {small: (24, 24), overflow: usize::MAX, aligned: (x+7) & !7}" % outs, b.loc())
 
 
+def is_len_of(e, pred):
+    e = ir.peel(e)
+    return e[0] == 'call' and e[1].endswith("::len") and pred(e[2][0])
+
+
+def is_param(e, name):
+    e = ir.peel(e)
+    return e[0] == 'param' and e[2] == name
+
+
+def empty_array(e):
+    e = ir.peel(e)
+    return e[0] == 'agg' and e[1] == 'array' and len(e[3]) == 0
+
+
+def run_record_end(rep, facts):
+    PS = "parser::request::ParamsState"
+    PI = "parser::request::ParamsStateInner"
+    # ---- R6.4 ------------------------------------------------------------------------------------------
+    b, g, rows = rows_of(facts, PS + "::drive")
+    bad = []
+    kinds = set()
+    ncalls = 0
+    for r in rows:
+        cs = [c for c in r.calls if c[0] == PI + "::parse_stream"]
+        if not cs:
+            continue
+        if len(cs) != 1:
+            bad.append("more than one parse_stream call on one path")
+            continue
+        ncalls += 1
+        c = cs[0]
+        pos = r.nodes.index(c[2])
+        flag = cv(c[1][2])
+        # the governing comparison: the last `len(data) < payload_rem` test before the call
+        test = None
+        for (e, lab, n) in r.conds:
+            if r.nodes.index(n) > pos:
+                break
+            pe = ir.peel(e, casts=False)
+            if pe[0] == 'bin' and pe[1] in ('Lt', 'Le', 'Gt', 'Ge') and any(
+                    x[0] == 'call' and x[1].endswith("::len") for x in ir.walk(pe)):
+                test = (pe, lab[0] == 'otherwise')
+        if test is None:
+            bad.append("a parse_stream call is not governed by a comparison of the available length")
+            continue
+        pe, taken = test
+        exact = pe[1] == 'Lt' and is_len_of(pe[2], lambda x: is_param(x, 'data')) and self_field(pe[3], 'payload_rem')
+        if not exact:
+            bad.append("the payload-complete test is %s, not `data.len() < payload_rem`" % ir.show(pe)[:90])
+            continue
+        arg = ir.peel(c[1][1])
+        if taken:
+            kinds.add('partial')
+            if flag != 0:
+                bad.append("incomplete payload parsed with rec_end = true")
+            if not is_param(arg, 'data'):
+                bad.append("incomplete payload: parse_stream does not receive all available bytes (%s)" % ir.show(arg)[:60])
+        else:
+            kinds.add('complete')
+            if flag != 1:
+                bad.append("complete payload parsed with rec_end = false")
+            okarg = arg[0] == 'field' and str(arg[2]) == '0' and ir.peel(arg[1])[0] == 'call' and ir.peel(arg[1])[1].endswith("split_at_mut") \
+                and is_param(ir.peel(arg[1])[2][0], 'data') and self_field(ir.peel(arg[1])[2][1], 'payload_rem')
+            if not okarg:
+                bad.append("complete payload: parse_stream does not receive exactly the first payload_rem bytes (%s)" % ir.show(arg)[:60])
+    if bad:
+        rep.violation("R6.4", "params-drive/record-end-flag", "; ".join(sorted(set(bad))), b.loc())
+    elif kinds == {'partial', 'complete'}:
+        rep.ok("R6.4", "params-drive/record-end-flag", "data.len() < payload_rem => parse_stream(data, false); else parse_stream(data[..payload_rem], true) (%d paths)" % ncalls, b.loc())
+    else:
+        rep.undecidable("R6.4", "params-drive/record-end-flag", "expected a partial and a complete call, saw %s" % sorted(kinds), b.loc())
+
+    # ---- R6.5 parse_stream ---------------------------------------------------------------------------------
+    b, g, rows = rows_of(facts, PI + "::parse_stream")
+    bad = []
+    n = 0
+    classes = set()
+    for r in rows:
+        if r.end != 'return' or r.ret is None:
+            continue
+        n += 1
+        rec = None
+        rem_empty = None
+        for (e, lab) in nonconst_conds(r):
+            pe = ir.peel(e)
+            if is_param(pe, 'rec_end'):
+                rec = (lab[0] == 'otherwise')
+            elif pe[0] == 'call' and pe[1].endswith("is_empty") and any(x[0] == 'call' and x[1].endswith("into_inner") for x in ir.walk(pe)):
+                rem_empty = (lab[0] == 'otherwise')
+            elif pe[0] == 'call' and pe[1].endswith("is_empty") and self_field(pe[2][0], 'buffer'):
+                pass
+            else:
+                bad.append("unexpected condition %s" % ir.show(pe)[:60])
+        ext = [c for c in r.calls if c[0].endswith("Extend>::extend") and self_field(c[1][0], 'buffer')]
+        ret = ir.peel(r.ret, casts=False)
+        whole = is_len_of(ret, lambda x: is_param(x, 'data'))
+        part = ret[0] == 'bin' and ret[1] == 'Sub' and is_len_of(ret[2], lambda x: is_param(x, 'data')) and ir.peel(ret[3])[0] == 'call' and ir.peel(ret[3])[1].endswith("::len")
+        if rec is True and rem_empty is False:
+            classes.add('buffered')
+            tail = ir.peel(ext[0][1][1]) if ext else None
+            if len(ext) != 1 or not (tail[0] == 'call' and tail[1].endswith("into_inner")) or not whole:
+                bad.append("record end with an unparsed remainder: the remainder is not moved into self.buffer and the whole slice reported consumed")
+        elif rec is None and not ext:
+            # still inside a buffered pair after parse_buffered
+            classes.add('pending-pair')
+            sub = ir.peel(ret[3]) if part else None
+            if not part or not (ir.peel(sub[2][0])[0] == 'call' and ir.peel(sub[2][0])[1] == PI + "::parse_buffered"):
+                bad.append("pending buffered pair: the consumed amount is not len - remainder returned by parse_buffered")
+        else:
+            classes.add('plain')
+            if ext or not part:
+                bad.append("no record end / nothing left: expected consumed = len - unparsed remainder and no buffering")
+    if bad:
+        rep.violation("R6.5", "parse_stream/record-end-buffering", "; ".join(sorted(set(bad))), b.loc())
+    elif classes == {'buffered', 'pending-pair', 'plain'}:
+        rep.ok("R6.5", "parse_stream/record-end-buffering", "rec_end && remainder non-empty => buffer.extend(remainder), consumed = len; otherwise consumed = len - remainder (%d paths)" % n, b.loc())
+    else:
+        rep.undecidable("R6.5", "parse_stream/record-end-buffering", "outcome classes seen: %s" % sorted(classes), b.loc())
+
+    # ---- R6.5 parse_buffered ---------------------------------------------------------------------------------
+    b, g, rows = rows_of(facts, PI + "::parse_buffered")
+    bad = []
+    n = 0
+    cls = {}
+    for r in rows:
+        if r.end != 'return' or r.ret is None:
+            continue
+        n += 1
+        cleared = [c for c in r.calls if c[0] == "std::vec::Vec::clear" and self_field(c[1][0], 'buffer')]
+        ins = [c for c in r.calls if c[0].endswith("HashMap::insert")]
+        rec = None
+        for (e, lab) in nonconst_conds(r):
+            if is_param(e, 'rec_end'):
+                rec = (lab[0] == 'otherwise')
+        ret = ir.peel(r.ret)
+        ext = [c for c in r.calls if c[0].endswith("Extend>::extend") and self_field(c[1][0], 'buffer')]
+        if cleared:
+            cls['complete'] = cls.get('complete', 0) + 1
+            if not ins:
+                bad.append("the pair buffer is cleared without inserting the pair")
+            continue
+        if ins:
+            bad.append("a pair is inserted but the pair buffer is kept")
+        if rec is None:
+            bad.append("an incomplete-pair return does not depend on rec_end")
+        elif rec:
+            cls['moved'] = cls.get('moved', 0) + 1
+            # the last extend moves the current remainder of data
+            if not ext or not empty_array(ret):
+                bad.append("rec_end and the pair is incomplete: remaining bytes are not all moved into the pair buffer (return must be the empty slice after buffer.extend(data))")
+            else:
+                last = ir.peel(ext[-1][1][1])
+                if not any(is_param(x, 'data') for x in ir.walk(last)):
+                    bad.append("rec_end: what is appended to the pair buffer is not the data remainder")
+        else:
+            cls['kept'] = cls.get('kept', 0) + 1
+            if empty_array(ret) or not any(is_param(x, 'data') for x in ir.walk(ret)):
+                bad.append("no record end and the pair is incomplete: the remainder of data must be returned to the caller")
+    if bad:
+        rep.violation("R6.5", "parse_buffered/record-end-buffering", "; ".join(sorted(set(bad))), b.loc())
+    elif set(cls) == {'complete', 'moved', 'kept'}:
+        rep.ok("R6.5", "parse_buffered/record-end-buffering", "incomplete pair: rec_end => buffer.extend(data), return []; else return data; complete pair => insert + clear (%s over %d paths)" % (cls, n), b.loc())
+    else:
+        rep.undecidable("R6.5", "parse_buffered/record-end-buffering", "outcome classes seen: %s" % cls, b.loc())
+
+
 def main(rep, tier):
     f = F.load(("async", "http"))
     rep.configs.append({"features": "async,http", "profile": "debug", "bodies": len(f.bodies)})
     check.guard(rep, "R6", run, f)
-    rep.floor("R6", "rule instances", len([i for i in rep.instances if i["status"] == "ok"]), 6)
+    check.guard(rep, "R6.4", run_record_end, f)
+    rep.floor("R6", "rule instances", len([i for i in rep.instances if i["status"] == "ok"]), 9)
     return rep.finish(
         "Sentence 2 of the statement is decided outright as a path rule on request::Parser::parse (not done => room left, else StuckOnInput "
         "from that very call); allocation-size provenance and the shape of the alignment expression are checked structurally.",
